@@ -110,7 +110,73 @@ fn decide_text(run: &Run, code: &str, check_rowan: bool) -> (Decision, bool, boo
 /// A failing text matches a finding iff *repairing exactly that finding's construct* in the text (a token-level
 /// normalisation) or in the comparison (the documented tree rewrite) makes all three parsers agree again.
 /// Anything else that is wrong with the same text survives the repair and is reported as a VIOLATION.
-fn known_signature(run: &Run, code: &str, _ir: &Result<String, String>, _peg: &Result<String, String>) -> Option<String> {
+pub const K_ROWAN_COMP: &str = "C06-formatter-parser-comprehension-laxity";
+/// The formatter's parser accepts a comma after the specs of a comprehension (`[x for a in b, ]`,
+/// `{[k]: 1 for k in x, for j in y}`) and an `if` spec before the first `for`; both evaluator parsers reject.
+/// Signature: the default parser stops at exactly such a token ("expected ']' / '}', got ',' / 'if' @N"), a `for` spec
+/// of the same bracket stands before (comma) or after (if) it, and — for the comma — the text with that one comma
+/// removed has no disagreement left.
+fn rowan_comprehension_laxity(run: &Run, code: &str, ir: &Result<String, String>, peg: &Result<String, String>) -> bool {
+	let (Err(msg), Err(_)) = (ir, peg) else { return false };
+	if !(msg.starts_with("expected ']'") || msg.starts_with("expected '}'")) {
+		return false;
+	}
+	let comma = msg.contains("got ','");
+	if !comma && !msg.contains("got 'if'") {
+		return false;
+	}
+	let Some(off) = msg.rsplit('@').next().and_then(|n| n.trim().parse::<usize>().ok()) else { return false };
+	if off >= code.len() || !code.is_char_boundary(off) {
+		return false;
+	}
+	if !matches!(parse_rowan(code), Ok(0)) {
+		return false;
+	}
+	// tokens of the enclosing bracket before / after the offending token, at its own nesting depth
+	let same_depth_has_for = |toks: Vec<Tok>, backwards: bool| -> bool {
+		let it: Box<dyn Iterator<Item = &Tok>> = if backwards { Box::new(toks.iter().rev()) } else { Box::new(toks.iter()) };
+		let mut depth = 0i32;
+		for t in it {
+			let (open, close) = if backwards { (["]", "}", ")"], ["[", "{", "("]) } else { (["[", "{", "("], ["]", "}", ")"]) };
+			if open.contains(&t.1.as_str()) {
+				depth += 1;
+			} else if close.contains(&t.1.as_str()) {
+				if depth == 0 {
+					return false;
+				}
+				depth -= 1;
+			} else if depth == 0 && t.1 == "for" {
+				return true;
+			}
+		}
+		false
+	};
+	if comma {
+		if !same_depth_has_for(lex_tokens(&code[..off]), true) {
+			return false;
+		}
+		let mut repaired = code.to_owned();
+		repaired.replace_range(off..off + 1, " ");
+		if residual_problems(&repaired, false, false).is_empty() {
+			return true;
+		}
+		// what is left may be another recorded finding (decided by its own signature on the repaired text)
+		match (parse_ir(&repaired), parse_peg(&repaired)) {
+			(Ok(i), Ok(p)) => known_signature_inner(run, &repaired, &i, &p).is_some(),
+			_ => false,
+		}
+	} else {
+		same_depth_has_for(lex_tokens(&code[off + 2..]), false)
+	}
+}
+
+fn known_signature(run: &Run, code: &str, ir: &Result<String, String>, peg: &Result<String, String>) -> Option<String> {
+	if run.is_known(K_ROWAN_COMP) && rowan_comprehension_laxity(run, code, ir, peg) {
+		return Some(K_ROWAN_COMP.to_owned());
+	}
+	known_signature_inner(run, code, ir, peg)
+}
+fn known_signature_inner(run: &Run, code: &str, _ir: &Result<String, String>, _peg: &Result<String, String>) -> Option<String> {
 	let toks = lex_tokens(code);
 	let mut cur = toks.clone();
 	let mut applied: Vec<&str> = vec![];
@@ -997,17 +1063,17 @@ pub fn run(run: &Run) {
 	}
 	run.exhaustive.store(true, std::sync::atomic::Ordering::SeqCst);
 	run.note(format!("exhaustive: all token sequences of length 1..={maxlen} over {k} tokens; other stages sampled"));
-	let n = run.tier.pick(60_000, 2_000_000);
+	let n = run.tier.pick(600_000, 6_000_000);
 	run.explore("random-tokens", n, 5..=14, |src| {
 		let len = src.range(5, 14) as usize;
 		let toks: Vec<&str> = (0..len).map(|_| *src.pick(FULL_ALPHABET)).collect();
 		token_seq_case(run, &toks)
 	});
-	let n = run.tier.pick(20_000, 500_000);
+	let n = run.tier.pick(300_000, 3_000_000);
 	run.explore("trees", n, 10..=200, |src| tree_case(run, src, 4));
-	let n = run.tier.pick(8_000, 200_000);
+	let n = run.tier.pick(100_000, 1_000_000);
 	run.explore("literals", n, 4..=40, |src| literal_case(run, src));
-	let n = run.tier.pick(20_000, 500_000);
+	let n = run.tier.pick(300_000, 3_000_000);
 	run.explore("mutations", n, 10..=120, |src| mutation_case(run, src));
 	for c in ["literal:string:valid", "literal:string:invalid", "literal:number:valid", "literal:number:invalid", "literal:textblock"] {
 		run.require_class(c, 20);
